@@ -25,6 +25,7 @@
 #include <iv_fd_pump.h>
 #include <iv_list.h>
 #include <iv_tls.h>
+#include <poll.h>
 #include <string.h>
 #include <sys/ioctl.h>
 #include "iv_private.h"
@@ -304,10 +305,21 @@ static int iv_fd_pump_try_input(struct iv_fd_pump *ip)
 			return -1;
 
 		if (splice_available && ip->bytes) {
-			int bytes = 1;
+			struct pollfd pfd;
 
-			ioctl(ip->from_fd, FIONREAD, &bytes);
-			if (bytes > 0)
+			/*
+			 * If our input is readable (or at end-of-file)
+			 * and splice() still reports EAGAIN, it is our
+			 * own pipe that has no room left.  (FIONREAD
+			 * cannot tell an empty input from one that is
+			 * at end-of-file, and asking for input on the
+			 * latter makes the caller spin until the pipe
+			 * has been drained.)
+			 */
+			pfd.fd = ip->from_fd;
+			pfd.events = POLLIN;
+			if (poll(&pfd, 1, 0) > 0 &&
+			    (pfd.revents & (POLLIN | POLLHUP | POLLERR)))
 				ip->full = 1;
 		}
 
